@@ -10,6 +10,7 @@ the matching `…_witness` theorems prove the model really departs from the spec
 -/
 import GPy.C07.Proofs
 import GPy.C07.TextProofs
+import GPy.C07.ShiftProofs
 namespace GPy.C07
 
 /-- shared proof script: case-split on the representations of both operands,
@@ -154,6 +155,37 @@ the theorems compose along any expression. -/
 theorem word_results_wf {a b : Int} (ha : inRange a) (hb : inRange b) :
     WF (intAdd a b) ∧ WF (intSub a b) ∧ WF (intMul a b) :=
   ⟨(intAdd_exact ha hb).2, (intSub_exact ha hb).2, (intMul_exact ha hb).2⟩
+
+theorem bigGoInt_eq (x : Int) : bigGoInt x = if inRange x then .ok x else .error .overflow := by
+  unfold bigGoInt inRange
+  by_cases h : x ≤ IntMax ∧ IntMin ≤ x
+  · simp [h]
+  · have : ¬ (IntMin ≤ x ∧ x ≤ IntMax) := fun h' => h ⟨h'.2, h'.1⟩
+    simp [h, this]
+
+macro "dispatchShift" : tactic => `(tactic|
+  (simp [binop, meth, rmeth, intMeth, intRMeth, bigMeth, bigRMeth, boolMeth, convertToInt,
+      convertToBig, convertToBool, tyTag, BinOp.isCmp, denoteRes, specBin, bigShift, bigGoInt_eq,
+      intLshift_closed, inRange_bool, specShr_eq, bigShr_eq, goShr_eq, *]))
+
+/-- `<<` for every representation mix: x·2^n, ValueError for a negative count,
+OverflowError for a count that does not fit the index type (as CPython 3.4) -/
+theorem lshift_exact_partial (a b : Obj) (x y : Int) (ha : denote a = some x) (hb : denote b = some y)
+    (wa : WF a) (wb : WF b) (hk : kfBoolOnly [a, b] = false) :
+    denoteRes (binop .lshift a b) = some (specBin .lshift x y) := by
+  by_cases hy : y < 0 <;> by_cases hr : inRange y
+  all_goals (cases a <;> cases b <;> simp [denote, kfBoolOnly, isBool] at ha hb hk <;> subst ha hb <;> (try simp only [WF_int] at wa wb))
+  all_goals dispatchShift
+  all_goals (first | done | (split_ifs <;> simp <;> done) | (exfalso; split_ifs at hy <;> omega) | (exfalso; exact hr (inRange_bool _)) | (simp_all [inRange, IntMin, IntMax]; done) | (split_ifs <;> simp_all [inRange, IntMin, IntMax] <;> omega) | trace_state)
+
+/-- `>>` for every representation mix: ⌊x / 2^n⌋ -/
+theorem rshift_exact_partial (a b : Obj) (x y : Int) (ha : denote a = some x) (hb : denote b = some y)
+    (wa : WF a) (wb : WF b) (hk : kfBoolOnly [a, b] = false) :
+    denoteRes (binop .rshift a b) = some (specBin .rshift x y) := by
+  by_cases hy : y < 0 <;> by_cases hr : inRange y
+  all_goals (cases a <;> cases b <;> simp [denote, kfBoolOnly, isBool] at ha hb hk <;> subst ha hb <;> (try simp only [WF_int] at wa wb))
+  all_goals dispatchShift
+  all_goals (first | done | (split_ifs <;> simp <;> done) | (exfalso; split_ifs at hy <;> omega) | (exfalso; exact hr (inRange_bool _)) | (simp_all [inRange, IntMin, IntMax]; done) | (split_ifs <;> simp_all [inRange, IntMin, IntMax] <;> omega) | trace_state)
 
 /-- Text → integer: for EVERY text and EVERY base argument, `py.IntFromString` (model)
 yields exactly the value Python's `int(text, base)` grammar assigns, or ValueError
